@@ -101,13 +101,16 @@ class HistoryGen:
             f[0] = rng.choice(["dance-single", "dance-double", "pump-single"])
         x = None
         if rng.random() < 0.3:
-            x = [V.rvalue(rng, allow_cr=True, long_ok=False) for _ in range(rng.randint(0, 3))]
-        via = rng.choice(["from_msd", "blank", "from_str"])
+            x = [V.rvalue(rng, allow_cr=True, long_ok=rng.random() < 0.3) for _ in range(rng.randint(0, 3))]
+        via = rng.choice(["from_msd", "blank", "from_str", "ctor"])
         if via == "from_str" and any(":" in c for c in f + (x or [])):
             via = "from_msd"
         if via == "blank" and x == []:
             pass
-        return {"f": f, "x": x, "via": via}
+        spec = {"f": f, "x": x, "via": via}
+        if via == "ctor":
+            spec["order"] = rng.sample(range(6), 6)  # SMChart() with the six fields assigned in this order
+        return spec
 
     def ssc_chart_spec(self):
         rng = self.rng
@@ -188,8 +191,10 @@ class HistoryGen:
                 q = rng.random()
                 if q < 0.4:
                     op = ["cs_attr", i, rng.choice(M.SMCHART_ATTRS), self.field()]
-                elif q < 0.8:
+                elif q < 0.7:
                     op = ["cs_key", i, rng.choice(M.SIX), self.field()]
+                elif q < 0.8:
+                    op = ["cs_move", i, rng.choice(M.SIX), rng.random() < 0.5]
                 else:
                     x = None if rng.random() < 0.3 else [V.rvalue(rng, allow_cr=True, long_ok=False) for _ in range(rng.randint(0, 3))]
                     op = ["cs_extra", i, x]
@@ -213,8 +218,10 @@ class HistoryGen:
                     cands = [a for a in M.SSCCHART_ATTRS if a != "notes" and c.key_for(a) in c.d]
                     if cands:
                         op = ["cc_delattr", i, rng.choice(cands)]
-                elif ck:
+                elif q < 0.93 and ck:
                     op = ["cc_move", i, rng.choice(ck), rng.random() < 0.5]
+                elif nk in c.d and ("NOTES2" if nk == "NOTES" else "NOTES") not in c.d:
+                    op = ["cc_swapnotes", i]
         if op is None:
             op = ["str"]
         apply_model(self.m, op, self.pool, self.kind)
@@ -320,6 +327,12 @@ def apply_model(m, op, pool, kind):
         m.charts[op[1]].f[op[2]] = op[3]
     elif o == "cs_extra":
         m.charts[op[1]].extra = None if op[2] is None else list(op[2])
+    elif o == "cs_move":
+        pass  # the six fields of an SM chart are always presented in the documented order
+    elif o == "cc_swapnotes":
+        c = m.charts[op[1]]
+        nk = c.notes_key()
+        c.d["NOTES2" if nk == "NOTES" else "NOTES"] = c.d.pop(nk)
     elif o == "cc_set":
         m.charts[op[1]].d[op[2]] = val(op[3], pool)
     elif o == "cc_del":
@@ -343,8 +356,13 @@ def chart_real_from_spec(spec, pool, kind):
             return SMChart.from_msd(f + (x or [])) if x is not None else SMChart.from_msd(list(f))
         if via == "from_str":
             return SMChart.from_str(":".join(f + (x or [])))
-        c = SMChart.blank()
-        c.stepstype, c.description, c.difficulty, c.meter, c.radarvalues, c.notes = f
+        if via == "ctor":
+            c = SMChart()
+            for j in spec["order"]:
+                c[M.SIX[j]] = f[j]
+        else:
+            c = SMChart.blank()
+            c.stepstype, c.description, c.difficulty, c.meter, c.radarvalues, c.notes = f
         if x is not None:
             c.extradata = list(x)
         return c
@@ -402,6 +420,12 @@ def apply_real(s, op, pool, kind):
         s.charts[op[1]][op[2]] = op[3]
     elif o == "cs_extra":
         s.charts[op[1]].extradata = None if op[2] is None else list(op[2])
+    elif o == "cs_move":
+        s.charts[op[1]].move_to_end(op[2], last=op[3])
+    elif o == "cc_swapnotes":
+        c = s.charts[op[1]]
+        nk = "NOTES2" if "NOTES" not in c and "NOTES2" in c else "NOTES"
+        c["NOTES2" if nk == "NOTES" else "NOTES"] = c.pop(nk)  # the very same string object under the other key
     elif o == "cc_set":
         s.charts[op[1]][op[2]] = val(op[3], pool)
     elif o == "cc_del":
@@ -424,7 +448,7 @@ def real_state(s, kind):
     for c in s.charts:
         if kind == "sm":
             charts.append(([c.stepstype, c.description, c.difficulty, c.meter, c.radarvalues, c.notes],
-                           list(c.extradata or []), list(c.keys())))
+                           list(c.extradata or []), sorted(c.keys())))
         else:
             charts.append(list(c.items()))
     return items, charts
@@ -435,7 +459,7 @@ def model_state(m, kind):
     charts = []
     for c in m.charts:
         if kind == "sm":
-            charts.append((c.six(), list(c.extra or []), list(M.SIX)))
+            charts.append((c.six(), list(c.extra or []), sorted(M.SIX)))
         else:
             charts.append(c.items())
     return items, charts
